@@ -1,5 +1,5 @@
 import EdpVerif.Basic.Bytes
-import EdpVerif.Generated.Misc
+import EdpVerif.Generated.MiscC09
 /-!
 Model of `crates/edp_client/src/fragmentation.rs`, function by function, bug-for-bug (the code after the repairs
 7a903d6 — counts above the slot-vector limit go through the pending map — and e936302 — a header whose count conflicts
